@@ -39,6 +39,10 @@ def _behaviour(spec, seed):
     if kind == "rt":
         kw["durations"] = tuple(kw.get("durations", (0,)))
         return behave.RTBehaviour(spec.get("seed", seed), **kw)
+    if kind == "faulty_rt":
+        kw["durations"] = tuple(kw.get("durations", (0,)))
+        fault = kw.pop("fault")
+        return behave.FaultyRTBehaviour(spec.get("seed", seed), fault, **kw)
     if kind == "faultplan":
         plan = kw.pop("plan")
         return behave.FaultPlanBehaviour(spec.get("seed", seed), plan, **kw)
